@@ -443,7 +443,8 @@ zgsisx(superlu_options_t *options, SuperMatrix *A, int *perm_c, int *perm_r,
     notran = (options->Trans == NOTRANS);
     mc64 = (options->RowPerm == LargeDiag_MC64);
     if ( nofact ) {
-	*(unsigned char *)equed = 'N';
+	if ( lwork != -1 ) /* a size query leaves equed alone */
+	    *(unsigned char *)equed = 'N';
 	rowequ = FALSE;
 	colequ = FALSE;
     } else {
@@ -517,6 +518,20 @@ zgsisx(superlu_options_t *options, SuperMatrix *A, int *perm_c, int *perm_r,
     relax      = sp_ienv(2);
 
     utime = stat->utime;
+
+    if ( nofact && lwork == -1 ) {
+	/* Size query: report the estimate without touching any other argument
+	   (the estimate depends only on the dimensions and nnz(A)). */
+	int    *iwork0;
+	doublecomplex *dwork0;
+	int_t  annz = (A->Stype == SLU_NC) ? ((NCformat *) A->Store)->nnz
+	                                    : ((NRformat *) A->Store)->nnz;
+	*info = zLUMemInit(options->Fact, work, lwork, A->nrow, A->ncol, annz,
+			   panel_size, options->ILU_FillFactor, L, U, Glu,
+			   &iwork0, &dwork0);
+	mem_usage->total_needed = *info - A->ncol;
+	return;
+    }
 
     /* Convert A to SLU_NC format when necessary. */
     if ( A->Stype == SLU_NR ) {
